@@ -85,19 +85,38 @@ Theorem c12_csv_faithful : forall trim_space delimiter fields,
 Proof. exact decode_csv_faithful. Qed.
 Print Assumptions c12_csv_faithful.
 
-(* ---- json_max_fields_size: cutFieldsBySize as repaired by ed38629 ------------------------------- *)
-(* gjson's Index and len(Str) are the only oracle values; the raw (escaped) text of the string is found
-   by the model itself (json_raw_len).  esc_valid = the escaped content of a valid JSON string: no bare
-   quote, no control character, every backslash starts a 2-byte escape or a 6-byte \uXXXX escape. *)
+(* ---- json_max_fields_size: cutFieldsBySize as repaired by ed38629, a08bbd4, 86e6b5f ------------- *)
+(* one answer of gjson = (Index, len(Str), limit, Raw) (jfound); these are oracle values.  The model
+   evaluates the code's guard "Raw stands at Index" (json_raw_at), finds the closing quote of the string
+   at Index itself (json_raw_len) and insists that Raw is exactly that string.  esc_valid = the escaped
+   content of a valid JSON string: no bare quote, no control character, every backslash starts a 2-byte
+   escape or a 6-byte \uXXXX escape. *)
 
-(* never slices or indexes out of range, for ANY document (valid or not) and any len(Str), when the limit
-   is not negative (negative limits are rejected when the decoder is built,
-   fixes/C12-json-negative-limit.patch) and gjson's Index is the opening quote of a terminated string *)
-Theorem c12_json_cut_total : forall data index strlen limit p,
-  0 <= limit -> json_raw_len_at data index <> None ->
-  json_cut data index strlen limit <> Panic p.
+(* never slices or indexes out of range, for ANY document (valid or not), any len(Str) and any Raw, when
+   the limit is not negative (negative limits are rejected when the decoder is built,
+   fixes/C12-json-negative-limit.patch), Index is not negative and gjson's Raw - whenever it does stand
+   at Index - is the string that starts there (raw_consistent; checked by the harness on every run) *)
+Theorem c12_json_cut_total : forall data index strlen limit raw p,
+  0 <= limit -> 0 <= index -> raw_consistent data index raw ->
+  json_cut data index strlen limit raw <> Panic p.
 Proof. exact json_cut_total. Qed.
 Print Assumptions c12_json_cut_total.
+
+(* 86e6b5f: an answer whose Raw does not occur in the document at Index (gjson leaves Index at 0 for
+   results that are not a slice of the document: a|@this, a|@reverse, [a,z].0) leaves the document
+   unchanged when it is the only path, and is ignored - wherever it stands among the answers - when
+   there are several *)
+Theorem c12_json_cut_index_unknown : forall data index strlen limit raw,
+  0 <= index -> ~ raw_occurs_at data index raw ->
+  json_cut data index strlen limit raw = Ok data /\
+  forall found1 found2,
+    json_cut_many data (found1 ++ (index, strlen, limit, raw) :: found2) = json_cut_many data (found1 ++ found2).
+Proof.
+  intros data index strlen limit raw Hi Hn.
+  split; [exact (json_cut_index_unknown data index strlen limit raw Hi Hn)|].
+  intros found1 found2. exact (json_cut_many_index_unknown data found1 index strlen limit raw found2 Hi Hn).
+Qed.
+Print Assumptions c12_json_cut_index_unknown.
 
 (* THE clause "per-field size limits cut only the named string fields and always leave valid JSON":
    in a document  pre "raw" post  the string is replaced by its first k bytes and nothing else changes;
@@ -107,7 +126,7 @@ Print Assumptions c12_json_cut_total.
 Theorem c12_json_cut_spec : forall pre raw post strlen limit,
   esc_valid raw = true -> 0 <= limit ->
   exists k : nat,
-    json_cut (pre ++ QUOTE :: raw ++ QUOTE :: post) (len pre) strlen limit =
+    json_cut (pre ++ QUOTE :: raw ++ QUOTE :: post) (len pre) strlen limit (QUOTE :: raw ++ [QUOTE]) =
       Ok (pre ++ QUOTE :: firstn k raw ++ QUOTE :: post) /\
     (k <= length raw)%nat /\
     esc_valid (firstn k raw) = true /\
@@ -136,28 +155,36 @@ Proof. exact json_kept_spec. Qed.
 Print Assumptions c12_json_kept_spec.
 
 (* several paths (positions found on the original document, sorted by descending start, cut one after
-   the other): in a document  pre "raw1" post1 "raw2" post2 ...  with DISTINCT limited strings, gjson's
-   answers handed over in any order (Go map iteration), every string is shortened as above and nothing
-   else changes *)
-Theorem c12_json_cut_many_spec : forall pre fs found,
-  Forall jf_ok fs -> Permutation found (jf_found (len pre) fs) ->
+   the other, a position skipped when the next one has the same end - a08bbd4): in a document
+   pre "raw1" post1 "raw2" post2 ...  every string may be named by SEVERAL paths (a and \a), each with its
+   own limit; gjson's answers are handed over in any order (Go map iteration).  Every named string is cut
+   once, by the smallest of the limits given for it (jf_limit; what is kept: c12_json_kept_spec), and
+   nothing else changes.  jfield = (raw, post, len(Str), limit, further limits for the same string),
+   jf_ok = raw is valid escaped content and no limit is negative; junk = further answers that find
+   nothing (finds_nothing: the string fits its limit, or Raw is not at Index - c12_json_cut_index_unknown) *)
+Theorem c12_json_cut_many_spec : forall pre fs junk found,
+  Forall jf_ok fs -> Forall (finds_nothing (pre ++ jf_doc fs)) junk ->
+  Permutation found (jf_found (len pre) fs ++ junk) ->
   json_cut_many (pre ++ jf_doc fs) found = Ok (pre ++ jf_cut fs).
 Proof. exact json_cut_many_spec. Qed.
 Print Assumptions c12_json_cut_many_spec.
 
-(* the hypothesis "distinct strings" of c12_json_cut_many_spec cannot be dropped: two configured paths
-   that resolve to the SAME string (a and \a, o.f and o.\f) yield two overlapping positions, both
-   computed on the original document, and the second cut eats the closing quote and what follows:
-   in the document { a : 0123456789 , z : tail } limits 3 and 5 on a leave  012  followed directly
-   by  : tail  - the closing quote, the comma and the key z are gone (reported; such a configuration is
-   not generated by the harness) *)
-Theorem c12_json_cut_many_aliased_refuted :
-  exists pre raw post strlen l1 l2 out,
-    esc_valid raw = true /\ 0 <= l1 /\ 0 <= l2 /\
-    json_cut_many (pre ++ QUOTE :: raw ++ QUOTE :: post) [(len pre, strlen, l1); (len pre, strlen, l2)] = Ok out /\
-    ~ cut_keeps_framing pre raw post out.
-Proof. exact json_cut_many_aliased_refuted. Qed.
-Print Assumptions c12_json_cut_many_aliased_refuted.
+(* the witness that refuted the clause before a08bbd4 ( a : 0123456789 with limits 3 and 5 given by two
+   paths for the one string; the second cut removed the closing quote) is now cut once to 012, whatever
+   the order of the answers, also for equal limits *)
+Lemma c12_json_cut_many_aliased_repaired :
+  let doc := alias_pre ++ QUOTE :: alias_raw ++ QUOTE :: alias_post in
+  let q := QUOTE :: alias_raw ++ [QUOTE] in
+  let out := Ok (alias_pre ++ QUOTE :: firstn 3 alias_raw ++ QUOTE :: alias_post) in
+  esc_valid alias_raw = true /\
+  json_cut_many doc [(len alias_pre, 10, 3, q); (len alias_pre, 10, 5, q)] = out /\
+  json_cut_many doc [(len alias_pre, 10, 5, q); (len alias_pre, 10, 3, q)] = out /\
+  json_cut_many doc [(len alias_pre, 10, 3, q); (len alias_pre, 10, 3, q)] = out /\
+  (* a|@this next to a: gjson answers Index 0 for the modifier path *)
+  json_cut_many doc [(len alias_pre, 10, 3, q); (0, 10, 5, q)] = out /\
+  json_cut doc 0 10 5 q = Ok doc.
+Proof. exact json_cut_many_aliased_repaired. Qed.
+Print Assumptions c12_json_cut_many_aliased_repaired.
 
 (* the runner's executable predicate (Violates when false) is the framing statement of the theorems:
    the output is the document with nothing but the named strings replaced by prefixes of themselves *)
@@ -232,13 +259,20 @@ Proof. repeat split; vm_compute; reflexivity. Qed.
 Example c12_json_cut_nonvacuous :
   esc_valid (bs "x\u00e9\n\\y\""z\ud83d\ude00 é") = true
   /\ esc_valid (bs "a\") = false /\ esc_valid (bs "a\u00e") = false /\ esc_valid (bs "a""b") = false
-  /\ json_cut (bs "{""a"":""xyz"",""b"":1}") 5 3 1 = Ok (bs "{""a"":""x"",""b"":1}")
-  /\ json_cut (bs "{""a"":""a\""""}") 5 2 1 = Ok (bs "{""a"":""a""}")
-  /\ json_cut (bs "{""a"":""x\u00e9\ny"",""b"":1}") 5 5 4 = Ok (bs "{""a"":""x"",""b"":1}")
-  /\ json_cut (bs "{""a"":""x\u00e9\ny"",""b"":1}") 5 5 7 = Ok (bs "{""a"":""x\u00e9\ny"",""b"":1}")
-  /\ json_cut (bs "{""a"":""x\u00e9\ny\tz"",""b"":1}") 5 8 7 = Ok (bs "{""a"":""x\u00e9"",""b"":1}")
-  /\ json_cut_many (bs "{""a"":""ab\ncd"",""b"":""x\\y""}") [(18, 3, 2); (5, 5, 3)] = Ok (bs "{""a"":""ab"",""b"":""x""}")
-  /\ Forall jf_ok [(bs "ab\ncd", bs ",""b"":", 5, 3); (bs "x\\y", bs "}", 3, 2)]
-  /\ jf_doc [(bs "ab\ncd", bs ",""b"":", 5, 3); (bs "x\\y", bs "}", 3, 2)] = bs """ab\ncd"",""b"":""x\\y""}"
-  /\ jf_found 5 [(bs "ab\ncd", bs ",""b"":", 5, 3); (bs "x\\y", bs "}", 3, 2)] = [(5, 5, 3); (18, 3, 2)].
-Proof. repeat split; try (vm_compute; reflexivity). repeat constructor; apply Z.leb_le; reflexivity. Qed.
+  /\ json_cut (bs "{""a"":""xyz"",""b"":1}") 5 3 1 (bs """xyz""") = Ok (bs "{""a"":""x"",""b"":1}")
+  /\ json_cut (bs "{""a"":""a\""""}") 5 2 1 (bs """a\""""") = Ok (bs "{""a"":""a""}")
+  /\ json_cut (bs "{""a"":""x\u00e9\ny"",""b"":1}") 5 5 4 (bs """x\u00e9\ny""") = Ok (bs "{""a"":""x"",""b"":1}")
+  /\ json_cut (bs "{""a"":""x\u00e9\ny"",""b"":1}") 5 5 7 (bs """x\u00e9\ny""") = Ok (bs "{""a"":""x\u00e9\ny"",""b"":1}")
+  /\ json_cut (bs "{""a"":""x\u00e9\ny\tz"",""b"":1}") 5 8 7 (bs """x\u00e9\ny\tz""") = Ok (bs "{""a"":""x\u00e9"",""b"":1}")
+  /\ json_cut (bs "{""a"":""xyz"",""b"":1}") 0 3 1 (bs """xyz""") = Ok (bs "{""a"":""xyz"",""b"":1}")
+  /\ ~ raw_occurs_at (alias_pre ++ QUOTE :: alias_raw ++ QUOTE :: alias_post) 0 (QUOTE :: alias_raw ++ [QUOTE])
+  /\ json_cut_many (bs "{""a"":""ab\ncd"",""b"":""x\\y""}") [(18, 3, 2, bs """x\\y"""); (5, 5, 3, bs """ab\ncd""")] = Ok (bs "{""a"":""ab"",""b"":""x""}")
+  /\ json_cut_many (bs "{""a"":""ab\ncd"",""b"":""x\\y""}") [(18, 3, 2, bs """x\\y"""); (5, 5, 4, bs """ab\ncd"""); (0, 5, 1, bs """ab\ncd"""); (5, 5, 3, bs """ab\ncd""")] = Ok (bs "{""a"":""ab"",""b"":""x""}")
+  /\ Forall jf_ok [(bs "ab\ncd", bs ",""b"":", 5, 4, [3]); (bs "x\\y", bs "}", 3, 2, [])]
+  /\ jf_doc [(bs "ab\ncd", bs ",""b"":", 5, 4, [3]); (bs "x\\y", bs "}", 3, 2, [])] = bs """ab\ncd"",""b"":""x\\y""}"
+  /\ jf_found 5 [(bs "ab\ncd", bs ",""b"":", 5, 4, [3]); (bs "x\\y", bs "}", 3, 2, [])] = [(5, 5, 4, bs """ab\ncd"""); (5, 5, 3, bs """ab\ncd"""); (18, 3, 2, bs """x\\y""")]
+  /\ jf_cut [(bs "ab\ncd", bs ",""b"":", 5, 4, [3]); (bs "x\\y", bs "}", 3, 2, [])] = bs """ab"",""b"":""x""}".
+Proof.
+  repeat split; try (vm_compute; reflexivity); try exact alias_raw_not_at_0.
+  repeat constructor; apply Z.leb_le; reflexivity.
+Qed.
